@@ -87,7 +87,8 @@ VERIF_HARNESS(c01_l2_msg_header) {
   coap_pdu_t pdu;
   memset(&pdu, 0, sizeof(pdu));
   pdu.max_hdr_size = 6;
-  pdu.token = big + 8;
+  static uint8_t hb[32];      /* only the header and the two token-extension bytes are ever touched */
+  pdu.token = hb + 8;
   pdu.type = type;
   pdu.code = code;
   pdu.mid = mid;
